@@ -533,6 +533,7 @@ func (s *PebbleScanner) ScanCandidates(topo *topology.FunctionTopology) ([]*dete
 	// Create a consistent snapshot
 	snap := s.db.NewSnapshot()
 	defer snap.Close()
+	verifYield("candidates.afterSnapshot")
 
 	// Helper to process index entries using the snapshot
 	processCandidate := func(idxValue []byte) {
@@ -639,6 +640,7 @@ func (s *PebbleScanner) ScanTopologyExact(topo *topology.FunctionTopology, funcN
 
 	snap := s.db.NewSnapshot()
 	defer snap.Close()
+	verifYield("exact.afterSnapshot")
 
 	topoPrefix := []byte(fmt.Sprintf("%s%s:", prefixIdxTopo, topoHash))
 	upper := incrementLastByte(topoPrefix)
@@ -1184,6 +1186,7 @@ func (s *PebbleScanner) ScanTopologyWithSnapshot(snap *pebble.Snapshot, topo *to
 	threshold := s.matchThreshold
 	tolerance := s.entropyTolerance
 	s.mu.RUnlock()
+	verifYield("scan.afterSnapshot")
 
 	topoHash := detection.GenerateTopologyHash(topo)
 	fuzzyHash := topology.GenerateFuzzyHash(topo)
